@@ -173,6 +173,45 @@ func (w *World) comparedStringField(fn *ssa.Function, nt *types.Named, strIdx []
 					}
 					return
 				}
+				// the field handed to a helper that compares its parameter with constants
+				if call, ok := in.(*ssa.Call); ok {
+					h := call.Call.StaticCallee()
+					if h == nil || !w.inPkg(h) || len(h.Blocks) == 0 {
+						return
+					}
+					for ai, a := range call.Call.Args {
+						ld, ok := a.(*ssa.UnOp)
+						if !ok || ld.Op != token.MUL || ai >= len(h.Params) {
+							continue
+						}
+						fa, ok := ld.X.(*ssa.FieldAddr)
+						if !ok {
+							continue
+						}
+						if n, ok := derefNamed(fa.X.Type()); !ok || n != nt {
+							continue
+						}
+						p := h.Params[ai]
+						eachInstr(h, false, func(_ *ssa.Function, in2 ssa.Instruction) {
+							b2, ok := in2.(*ssa.BinOp)
+							if !ok || b2.Op != token.EQL && b2.Op != token.NEQ {
+								return
+							}
+							for _, pr := range [][2]ssa.Value{{b2.X, b2.Y}, {b2.Y, b2.X}} {
+								if pr[0] != ssa.Value(p) {
+									continue
+								}
+								if cs, ok := constString(pr[1]); ok {
+									if count[fa.Field] == nil {
+										count[fa.Field] = map[string]bool{}
+									}
+									count[fa.Field][cs] = true
+								}
+							}
+						})
+					}
+					return
+				}
 				bo, ok := in.(*ssa.BinOp)
 				if !ok || bo.Op != token.EQL && bo.Op != token.NEQ {
 					return
